@@ -122,13 +122,16 @@ def write_xaddition(path: Path, scan_type: str, rows):
 
 
 def write_batch_xml(path: Path, entries, batch_name="synthetic.b"):
-    """entries: list of {"result": str, "file": str | None} in log order"""
+    """entries: list of {"result": str, "file": str | None[, "stamp": str | None]} in log order"""
     out = ['\ufeff<?xml version="1.0" encoding="utf-8"?>',
            f'<BatchLogDataSet SchemaVersion="65536" DataVersion="1" BatchName="{escape(batch_name)}" '
            f'BatchDataPath="D:\\DATA\\{escape(batch_name)}" xmlns="BatchLog">']
     for i, e in enumerate(entries):
-        out += ["  <BatchLogInfo>", "    <BatchLogID>-1</BatchLogID>", f"    <SampleLogID>{i}</SampleLogID>",
-                "    <AcqDateTime>2020-11-16T13:08:48+11:00</AcqDateTime>", f"    <AcqResult>{escape(e['result'])}</AcqResult>"]
+        out += ["  <BatchLogInfo>", "    <BatchLogID>-1</BatchLogID>", f"    <SampleLogID>{i}</SampleLogID>"]
+        stamp = e.get("stamp", "2020-11-16T13:08:48+11:00")  # None: the entry has no AcqDateTime element
+        if stamp is not None:
+            out.append(f"    <AcqDateTime>{escape(stamp)}</AcqDateTime>")
+        out.append(f"    <AcqResult>{escape(e['result'])}</AcqResult>")
         if e["file"] is not None:
             out.append(f"    <DataFileName>{escape(e['file'])}</DataFileName>")
         out += ["    <DilutionResult>1</DilutionResult>", "    <OperatorName>verif</OperatorName>",
@@ -147,7 +150,8 @@ def write_batch_csv(path: Path, rows):
     """rows: list of {"id": int, "file": str, "result": str}"""
     lines = [BATCH_CSV_HEADER]
     for r in rows:
-        lines.append(f"{r['id']},16/11/2020 1:08:48 PM,Sample,{r['id']:03d},<Manual>,{r['file']},{r['result']},-,1,-,verif,"
+        stamp = r.get("stamp", "16/11/2020 1:08:48 PM")  # None: no date in the row
+        lines.append(f"{r['id']},{'-' if stamp is None else stamp},Sample,{r['id']:03d},<Manual>,{r['file']},{r['result']},-,1,-,verif,"
                      + ",".join(["-"] * 18) + ",")
     path.write_text("\r\n".join(lines) + "\r\n", encoding="utf-8")
 
